@@ -36,7 +36,7 @@ func init() {
 			"record split / coalesce, and structure-aware edits of handshake messages (length fields, vector counts, ids, versions, whole-message delete / duplicate / truncate), re-sealed with the transcript's keys where the key log opens it; plus random byte streams. " +
 			"Driver programs on the zcrypto side: Handshake / Read / Write first, ConnectionState, GetHandshakeLog + json.Marshal, Close, optional concurrent ConnectionState observer. " +
 			"non-trivial = the endpoint was alive and waiting for input when the first faulted record was sent; distinct by (transcript, plan)",
-		MinNontrivial:         8000,
+		MinNontrivial:         25000,
 		MinNontrivialThorough: 140000,
 		Shards:                16,
 		Env:                   []string{godebug},
